@@ -105,10 +105,10 @@ def _task(args):
             recs.append(('find', 'R-BALANCE', func.short, i.detail[:60],
                          '%s (token %s): %s; skeleton %r' % (func.short, key, i.detail, sk.text()[:120]), loc(unit, func.node)))
         r = po.interp.renderer
-        st0 = cfg.obj.attrs.get('_suppress_ptag_stack')
+        st0 = r.attrs.get('_stack_in', cfg.obj.attrs.get('_suppress_ptag_stack'))
         st1 = r.attrs.get('_suppress_ptag_stack')
         if st0 is not None:
-            ok = st0 == st1
+            ok = isinstance(st1, list) and len(st0) == len(st1) and all(a is b or (not T.is_abstract(a) and a == b) for a, b in zip(st0, st1))
             recs.append(('ob', 'R-STACK', ok, {'method': func.short, 'stack_after': repr(st1)}))
             if not ok:
                 recs.append(('find', 'R-STACK', func.short, '_suppress_ptag_stack',
